@@ -1,6 +1,7 @@
 """C12 — conversions compose: a converted type behaves as its source / target."""
 from __future__ import annotations
 
+import collections
 import copy
 import json
 
@@ -22,7 +23,8 @@ RULE = ("Hypothesis draws a conversion program over an opaque wrapper class W (a
         "sources S_i come from a pool (int, str, List[int], Dict[str, int], Tuple[int, str], Optional[int], constrained int, a "
         "dataclass, a second converted class W2 for chains), some wrapped in catch_value_error and failing on part of their domain; "
         "one serializer g: W -> U (optionally inherited=False); a placement in {registered, dynamic conversion=, field metadata, "
-        "default_conversion=}; a nesting in {bare, List, Dict values, Optional, Tuple, Union with bool, field of a nested object}; and "
+        "default_conversion=}; a nesting in {bare, List, Dict values, Optional, Tuple, Union with bool, field of a nested object, Deque (std registered conversion "
+        "from / to list) and a user generic Collection with registered conversions from / to List}; and "
         "5-9 data (valid data of each source, mutants, atoms).  Oracle = commuting squares evaluated with apischema itself: "
         "deserialize(nest[W], d) accepts iff the element-wise composition 'first S_i accepting d, then f_i' accepts, with equal value "
         "(ValueError of a catching converter = rejection by that alternative); serialize(nest[W], v) == nest-wise serialize(U, g(v)), "
@@ -53,7 +55,7 @@ SOURCES = {
 }
 PROG_BASE = {"future": True, "enums": [], "newtypes": [], "classes": [
     {"name": "Point", "flavor": "dataclass", "fields": [{"n": "x", "t": {"k": "int"}}, {"n": "y", "t": {"k": "str"}, "default": {"c": ["str", "d"]}}]}]}
-NESTS = ["bare", "list", "map", "opt", "tuple", "union", "field"]
+NESTS = ["bare", "list", "map", "opt", "tuple", "union", "field", "deque", "bag"]
 
 
 @st.composite
@@ -97,6 +99,17 @@ def render(p) -> str:
              "    def __hash__(self):", "        return hash(repr(self.payload))",
              "    def __repr__(self):", "        return f'{type(self).__name__}({self.payload!r})'", "",
              "class SubW(W):", "    pass", "",
+             "TB = TypeVar('TB')",
+             "class Bag(Collection[TB]):  # a user container with registered conversions from / to List",
+             "    def __init__(self, items):", "        self.items = list(items)",
+             "    def __iter__(self):", "        return iter(self.items)",
+             "    def __len__(self):", "        return len(self.items)",
+             "    def __contains__(self, x):", "        return x in self.items",
+             "    def __eq__(self, other):", "        return type(other) is Bag and other.items == self.items",
+             "    def __repr__(self):", "        return f'Bag({self.items!r})'",
+             "def bag_from_list(items: List[TB]) -> Bag[TB]:", "    return Bag(items)",
+             "def bag_to_list(bag: Bag[TB]) -> List[TB]:", "    return list(bag)",
+             "deserializer(bag_from_list)", "serializer(bag_to_list)", "",
              "class W2(W):", "    pass", ""]
     convs = []
     for i, s in enumerate(p["sources"]):
@@ -117,7 +130,7 @@ def render(p) -> str:
     lines.append("DESER = (" + "".join(c + ", " for c in convs) + ")")
     if p["placement"] == "registered":
         lines += [f"deserializer({c})" for c in convs] + ["serializer(G)"]
-    nest_t = {"bare": "W", "list": "List[W]", "map": "Dict[str, W]", "opt": "Optional[W]", "tuple": "Tuple[W, int]", "union": "Union[W, bool]", "field": "W"}[p["nest"]]
+    nest_t = {"bare": "W", "list": "List[W]", "map": "Dict[str, W]", "opt": "Optional[W]", "tuple": "Tuple[W, int]", "union": "Union[W, bool]", "field": "W", "deque": "Deque[W]", "bag": "Bag[W]"}[p["nest"]]
     if p["placement"] == "field":
         lines += ["@dataclass", "class Holder:", f"    w: {nest_t} = field(metadata=conversion(deserialization=DESER, serialization=G))", "    other: int = 0", "ROOT = Holder"]
     elif p["nest"] == "field":
@@ -203,10 +216,11 @@ def _evaluate(case, ctx, b, src):
             if "other" in d and (not isinstance(d["other"], int) or isinstance(d["other"], bool)):
                 raise Reject
             return mod.Holder(conv_one(d["w"]), d.get("other", 0))
-        if nest == "list":
+        if nest in ("list", "deque", "bag"):
             if not isinstance(d, list):
                 raise Reject
-            return [conv_one(x) for x in d]
+            items = [conv_one(x) for x in d]
+            return items if nest == "list" else collections.deque(items) if nest == "deque" else mod.Bag(items)
         if nest == "map":
             if not isinstance(d, dict) or not all(isinstance(k, str) for k in d):
                 raise Reject
@@ -232,7 +246,7 @@ def _evaluate(case, ctx, b, src):
         ctx.count()
         if placement == "field" or nest == "field":
             datum = {"w": d} if not (isinstance(d, dict) and "w" in d) else d
-        elif nest == "list":
+        elif nest in ("list", "deque", "bag"):
             datum = d if isinstance(d, list) and chance_det(d) else [d, d]
         elif nest == "map":
             datum = {"k": d}
@@ -354,16 +368,19 @@ def _only_value_error(errors) -> bool:
 
 def nest_type(mod, p, cls_name):
     W = getattr(mod, cls_name)
-    from typing import Dict, List, Optional, Tuple, Union
-    return {"bare": W, "list": List[W], "map": Dict[str, W], "opt": Optional[W], "tuple": Tuple[W, int], "union": Union[W, bool], "field": W}[p["nest"]]
+    from typing import Deque, Dict, List, Optional, Tuple, Union
+    return {"bare": W, "list": List[W], "map": Dict[str, W], "opt": Optional[W], "tuple": Tuple[W, int], "union": Union[W, bool], "field": W,
+            "deque": Deque[W], "bag": mod.Bag[W]}[p["nest"]]
 
 
 def nest_value(mod, p, w):
-    return {"bare": w, "list": [w, w], "map": {"k": w}, "opt": w, "tuple": (w, 1), "union": w, "field": w}[p["nest"]]
+    return {"bare": w, "list": [w, w], "map": {"k": w}, "opt": w, "tuple": (w, 1), "union": w, "field": w,
+            "deque": collections.deque([w, w]), "bag": mod.Bag([w, w])}[p["nest"]]
 
 
 def nest_image(p, inner, placement):
-    img = {"bare": inner, "list": [inner, inner], "map": {"k": inner}, "opt": inner, "tuple": [inner, 1], "union": inner, "field": inner}[p["nest"]]
+    img = {"bare": inner, "list": [inner, inner], "map": {"k": inner}, "opt": inner, "tuple": [inner, 1], "union": inner, "field": inner,
+           "deque": [inner, inner], "bag": [inner, inner]}[p["nest"]]
     if placement == "field" or p["nest"] == "field":
         return {"w": img, "other": 0}
     return img
